@@ -154,7 +154,9 @@ func (w *Walk) walkNode(st *fakes3.Store, prefix, link string, depth int) {
 			present++
 		}
 	}
-	if len(n.Key) == 0 && present == 0 {
+	if len(n.Key) == 0 && present == 0 && !(depth == 0 && w.Version.Size == 0) {
+		// (an empty ROOT node is what a tree emptied by a purge or a merge of empty trees is
+		// stored as: a version of an empty table)
 		w.problem("node %s has neither entries nor children", link)
 	}
 	if present > 0 {
